@@ -69,7 +69,10 @@ TAnotB == IsEvent("AnotB") /\ LET e == Log[l]  d == AnotBDef(sv[e.a], sv[e.b], m
          /\ ResOK(e.r, d, e.ordered)
          /\ sv' = (e.dst :> d) @@ sv /\ UNCHANGED <<un, ix, maxH>>
 \* seed-hash mismatch must be refused (non-empty foreign-seed operand)
-TMismatch == IsEvent("Mismatch") /\ Chk("seed-mismatch-refused", Log[l].outcome = "throw") /\ UNCHANGED <<sv, un, ix, maxH>>
+\* (offered to a LIVE union / intersection too: their state in the specification does not change, so a side effect of
+\* the refused call shows in their later results; an intersection that is already empty may ignore the operand)
+TMismatch == IsEvent("Mismatch") /\ Chk("seed-mismatch-refused", Log[l].outcome = "throw" \/ (Log[l].which = 4 /\ Log[l].liveEmpty))
+             /\ UNCHANGED <<sv, un, ix, maxH>>
 TJaccard == IsEvent("Jaccard") /\ LET e == Log[l]  a == sv[e.a]  b == sv[e.b] IN
          /\ Chk("jaccard-order", e.lb <= e.est /\ e.est <= e.ub)
          /\ Chk("jaccard-range", e.estI >= 0 /\ e.estI <= 1000000)
